@@ -9,6 +9,7 @@ import (
 	"os/exec"
 	"path/filepath"
 	"regexp"
+	"runtime/debug"
 	"sort"
 	"strconv"
 	"strings"
@@ -68,6 +69,10 @@ type scenario struct {
 	Seq    []step
 	Cache  bool // the network has an in-path content store honouring FreshnessPeriod / MustBeFresh
 	Window int  // >0: fetch window of the consumer client set through hook VerifSetWindow (scaled)
+	// RTT: round-trip time of this network (configuration dimension of the latency model): the Data
+	// answering an Interest expressed at virtual time t reaches the consumer at t+RTT at the
+	// earliest. 0 = the instant network of the other families.
+	RTT time.Duration
 }
 
 // step is one element of a scenario's sequential part: a Consume, a Produce or a clock advance,
@@ -168,6 +173,9 @@ func (sc *scenario) String() string {
 	if sc.Cache {
 		p = append(p, "cache")
 	}
+	if sc.RTT > 0 {
+		p = append(p, fmt.Sprintf("rtt%v", sc.RTT))
+	}
 	if len(sc.Dyn) > 0 {
 		p = append(p, fmt.Sprintf("dyn%d", len(sc.Dyn)))
 	}
@@ -242,6 +250,12 @@ type inst struct {
 	seqNext    int
 	cs         map[string]*csEnt // in-path content store (scenario.Cache)
 	nonceDrops int               // Interests dropped by the network as duplicates (same name and nonce)
+	sendErrs   int               // Express calls the consumer's face refused (face down)
+	faceLog    []string
+	spurious   map[string]int // Interest name -> timeouts that hit a packet the network had NOT lost, sooner than rttMax after it was sent
+	spurNote   string
+	held       []*heldWire // wires handed out by the producer's store, re-compared after later store transactions
+	churned    bool
 	dynUsed    []bool
 	dynLog     []string
 	devUsed    int
@@ -262,6 +276,7 @@ type sys struct {
 	cfgName string
 	maxDev  int
 	seg     int
+	faceOps bool // the explorer may take the consumer's face down and up again (deviations)
 }
 
 func (sc *scenario) group() string {
@@ -334,20 +349,164 @@ func tmpBase() string {
 	return d
 }
 
-func getBolt() *object.BoltStore {
-	if boltStore == nil {
-		boltPath = filepath.Join(tmpBase(), fmt.Sprintf("w%d.db", os.Getpid()))
-		os.Remove(boltPath)
-		s, err := object.NewBoltStore(boltPath)
-		if err != nil {
-			report.Fatal("cannot create bolt store %s: %v", boltPath, err)
-		}
-		object.VerifBoltNoSync(s)
-		boltStore = s
-	} else if err := object.VerifBoltClear(boltStore); err != nil {
-		report.Fatal("cannot clear bolt store: %v", err)
+// getBolt returns a BoltStore on a NEW database file (the previous instance's store is closed and
+// its file deleted). Page allocation inside bbolt depends on the whole history of the file (free
+// list); a file shared by the instances of a worker process would make what a stale slice into the
+// memory map shows - and whether the map is ever moved - depend on which histories that worker
+// happened to run before. With a fresh file every history has one page layout, in the explorer's
+// workers and in a replay alike.
+// boltDir: creating a bbolt file costs two fdatasync calls that NoSync does not switch off; on a
+// disk shared with other jobs that is milliseconds per instance and varies wildly. The database
+// files (32 KB - a few MB, one per process, deleted with the run) therefore live on the memory file
+// system when there is one, in a directory named like the run's temp dir.
+func boltDir() string {
+	if d := os.Getenv("C15_BOLTDIR"); d != "" {
+		return d
 	}
+	d := tmpBase()
+	if fi, err := os.Stat("/dev/shm"); err == nil && fi.IsDir() {
+		shm := filepath.Join("/dev/shm", filepath.Base(tmpBase()))
+		if os.MkdirAll(shm, 0o755) == nil {
+			d = shm
+		}
+	}
+	os.Setenv("C15_BOLTDIR", d)
+	return d
+}
+
+func getBolt() *object.BoltStore {
+	if boltStore != nil {
+		boltStore.Close()
+		boltStore = nil
+	}
+	boltPath = filepath.Join(boltDir(), fmt.Sprintf("w%d.db", os.Getpid()))
+	os.Remove(boltPath)
+	s, err := object.NewBoltStore(boltPath)
+	if err != nil {
+		report.Fatal("cannot create bolt store %s: %v", boltPath, err)
+	}
+	object.VerifBoltNoSync(s)
+	boltStore = s
 	return boltStore
+}
+
+// --- wires handed out by the producer's store -------------------------------------------------
+
+// heldWire is a byte slice the store returned (to the harness through Get, or to the network
+// through the producer's Interest handler) together with a private copy taken at that moment. A
+// packet that was retrieved is retrieved byte-for-byte only if those bytes stay what they were
+// while the application goes on publishing and removing: the engine may still have the reply
+// queued in a face, the consumer may not have read it yet.
+type heldWire struct {
+	what  string
+	alias []byte
+	copy  []byte
+}
+
+// hold records w and returns an independent copy (the reference model never aliases store memory).
+func (in *inst) hold(what string, w []byte) []byte {
+	if w == nil {
+		return nil
+	}
+	c := append([]byte(nil), w...)
+	in.held = append(in.held, &heldWire{what: what, alias: w, copy: c})
+	return c
+}
+
+// safeEqual compares two byte slices; a memory fault while reading them (a slice into a memory
+// map that has been unmapped or truncated meanwhile) is reported instead of killing the process.
+func safeEqual(a, b []byte) (eq bool, fault any) {
+	old := debug.SetPanicOnFault(true)
+	defer debug.SetPanicOnFault(old)
+	defer func() {
+		if r := recover(); r != nil {
+			eq, fault = false, r
+		}
+	}()
+	return bytes.Equal(a, b), nil
+}
+
+// recheckHeld re-compares every wire the store handed out so far with the copy taken when it was
+// handed out. Called after every operation that writes to the store.
+func (in *inst) recheckHeld(after string) {
+	keep := in.held[:0]
+	for _, h := range in.held {
+		eq, fault := safeEqual(h.alias, h.copy)
+		if eq {
+			keep = append(keep, h)
+			continue
+		}
+		key := in.sc.Store + ": bytes the store handed out do not stay intact when the store is written to afterwards"
+		if fault != nil {
+			in.bad("C15.bytes", key, fmt.Sprintf("%s (%d bytes) can no longer be read after %s: %v (the slice points into memory the store has given up)", h.what, len(h.copy), after, fault))
+		} else {
+			i := 0
+			for i < len(h.copy) && h.alias[i] == h.copy[i] {
+				i++
+			}
+			in.bad("C15.bytes", key, fmt.Sprintf("%s (%d bytes) differs from what it was when it was handed out, first at offset %d, after %s (the slice is backed by memory the store reuses)", h.what, len(h.copy), i, after))
+		}
+	}
+	for i := len(keep); i < len(in.held); i++ {
+		in.held[i] = nil
+	}
+	in.held = keep
+}
+
+// churn runs at the end of a history, when nothing else is going to happen: four more write
+// transactions on the producer's store with as much data as it holds (everything removed, every
+// published packet stored again with other bytes, twice), so that every page or buffer the store
+// has released since a wire was handed out is taken into use again; then the wires handed out
+// during the history are compared once more. Nothing is published under the scenario's names that
+// a consumer could still ask for: all fetches have completed.
+func (in *inst) churn() {
+	if in.churned || in.store == nil || len(in.held) == 0 {
+		return
+	}
+	in.churned = true
+	type pk struct {
+		name enc.Name
+		ver  uint64
+		n    int
+	}
+	var pks []pk
+	keys := make([]string, 0, len(in.ref))
+	for k := range in.ref {
+		keys = append(keys, k)
+	}
+	sort.Strings(keys)
+	for _, k := range keys {
+		p := in.ref[k]
+		pks = append(pks, pk{p.name, p.ver, len(p.wire)})
+	}
+	if len(pks) == 0 {
+		pks = append(pks, pk{mkName("/zz/churn", 0), 1, 64})
+	}
+	for round := 0; round < 2; round++ {
+		if err := in.store.Remove(enc.Name{}, true); err != nil {
+			in.bad("C15.removed", in.sc.Store+": Remove returns an error", fmt.Sprintf("Remove(/, prefix) = %v", err))
+			return
+		}
+		err := in.store.Begin()
+		for _, p := range pks {
+			if err != nil {
+				break
+			}
+			b := make([]byte, p.n)
+			for i := range b {
+				b[i] = byte(0xA5 + 31*round + i)
+			}
+			err = in.store.Put(p.name, p.ver, b)
+		}
+		if e2 := in.store.Commit(); err == nil {
+			err = e2
+		}
+		if err != nil {
+			in.bad("C15.stores", in.sc.Store+": Put returns an error", fmt.Sprintf("re-publishing %d packets: %v", len(pks), err))
+			return
+		}
+	}
+	in.recheckHeld(fmt.Sprintf("the end of the history and four more store transactions (2x: Remove(/, prefix), Put of %d packets)", len(pks)))
 }
 
 // ---------------------------------------------------------------------------------------------
@@ -356,7 +515,7 @@ func (s *sys) New() any {
 	vtime.Reset(false)
 	vsched.Reset()
 	return &inst{s: s, ref: map[string]*refPkt{}, removed: map[string]bool{}, pubBytes: map[string][]byte{},
-		timeouts: map[string]int{}, toNames: map[string]enc.Name{}, fatal: map[string]int{}, nonces: map[string]bool{}, lost: map[string]int{}, seen: map[string]bool{}}
+		timeouts: map[string]int{}, toNames: map[string]enc.Name{}, fatal: map[string]int{}, nonces: map[string]bool{}, lost: map[string]int{}, spurious: map[string]int{}, seen: map[string]bool{}}
 }
 
 func (in *inst) setup(sc *scenario) {
@@ -424,6 +583,7 @@ func (in *inst) produce(p pub) {
 		return
 	}
 	in.checkProduced(p, ver, data, got)
+	in.recheckHeld("Produce(" + p.String() + ")")
 }
 
 func (in *inst) get(n enc.Name, prefix bool) []byte {
@@ -432,7 +592,7 @@ func (in *inst) get(n enc.Name, prefix bool) []byte {
 		in.bad("C15.stores", in.sc.Store+": Get returns an error", fmt.Sprintf("Get(%s,%v) = error %v", n, prefix, err))
 		return nil
 	}
-	return w
+	return in.hold(fmt.Sprintf("the wire returned by Get(%s)", n), w)
 }
 
 // checkProduced compares the store contents after Produce with the published bytes: segment
@@ -518,6 +678,7 @@ func (in *inst) remove(t target) {
 			in.removed[k] = true
 		}
 	}
+	in.recheckHeld("Remove(" + t.String() + ")")
 }
 
 func (in *inst) consume(c con) {
@@ -598,7 +759,15 @@ func (in *inst) checkRec(rec *consumeRec) {
 			return // a Nack or an engine error for one of its Interests is final: failing is legal
 		}
 	}
-	if worst <= retries && in.nonceDrops > 0 {
+	spur := 0
+	for n, c := range in.spurious {
+		if pfx.IsPrefix(in.toNames[n]) {
+			spur += c
+		}
+	}
+	if worst <= retries && spur > 0 {
+		in.bad("C15.budget", "fetch fails although the network lost nothing beyond the retry budget: Interests expire before a round trip within the assumed bound can complete", fmt.Sprintf("%s completed with error %q; the most genuine losses any of its Interests had is %d (budget: %d retries); %d timeouts hit packets the network had not lost: %s", rec.tgt, rec.err, worst, retries, spur, in.spurNote))
+	} else if worst <= retries && in.nonceDrops > 0 {
 		in.bad("C15.budget", "fetch fails within the retry budget: retransmissions repeat the nonce of an earlier transmission (or carry none) and are dropped as duplicates by the network", fmt.Sprintf("%s completed with error %q; the most genuine losses any of its Interests had is %d (budget: %d retries); %d retransmitted Interests were dropped by the network for repeating a (name, nonce) it had already carried", rec.tgt, rec.err, worst, retries, in.nonceDrops))
 	} else if worst <= retries {
 		in.bad("C15.budget", "fetch fails although no Interest timed out more than Retries times", fmt.Sprintf("%s completed with error %q; the most timeouts any of its Interests had is %d (budget: %d retries = %d transmissions)", rec.tgt, rec.err, worst, retries, retries+1))
@@ -648,6 +817,11 @@ func (in *inst) answer(r *request) {
 	}
 	if replies > 1 {
 		in.bad("C15.once", "producer replies more than once to one Interest", fmt.Sprintf("%d replies to %s", replies, r.nameS))
+	}
+	if !fromCache && reply != nil {
+		// the reply is what the producer handed to its engine: the consumer keeps working on these
+		// very bytes (the harness copies nothing between the two clients), the harness keeps a copy
+		in.hold(fmt.Sprintf("the reply to Interest %s", r.nameS), reply)
 	}
 	var dn enc.Name
 	if fromCache {
@@ -847,7 +1021,16 @@ func (in *inst) timeout(r *request) {
 	r.pending = false
 	in.timeouts[r.nameS]++
 	in.toNames[r.nameS] = r.name
-	if !r.dup {
+	switch {
+	case r.flying && r.due.Sub(r.sentAt) <= rttMax:
+		// The network has not lost this packet and the consumer gave up on it sooner than the
+		// round-trip time the network is allowed to take: not a loss.
+		in.spurious[r.nameS]++
+		if in.spurNote == "" {
+			in.spurNote = fmt.Sprintf("Interest %s was expressed with lifetime %v and expired %v after it was sent while the network (RTT %v, assumed bound %v) had not lost it", r.nameS, r.lifetime, r.due.Sub(r.sentAt), in.sc.RTT, rttMax)
+		}
+	case r.dup, r.unsent:
+	default:
 		in.lost[r.nameS]++
 	}
 	r.cb(ndn.ExpressCallbackArgs{Result: ndn.InterestResultTimeout})
@@ -1022,6 +1205,57 @@ func (in *inst) runClient() {
 }
 
 // ---------------------------------------------------------------------------------------------
+// virtual time (latency model)
+//
+// Every expressed Interest carries the time it was sent and its lifetime. Network events happen at
+// a virtual time: the Data (or Nack) for a packet in flight arrives at max(now, sentAt + RTT) with
+// the scenario's round-trip time; the consumer engine's timeout for a pending Interest fires at
+// max(now, sentAt + lifetime + margin). An event at time T is enabled only while no pending Interest
+// expires before T (the expiry has to happen first: time does not run backwards), and executing it
+// moves the clock to T. The client reacts in zero time (its arms run between network events). With
+// RTT = 0 every arrival is "now", so the instant network of the other families is the special case.
+
+func (in *inst) arrival(r *request) time.Time {
+	t := r.sentAt.Add(in.sc.RTT)
+	if now := vtime.Now(); t.Before(now) {
+		return now
+	}
+	return t
+}
+
+func (in *inst) expiry(r *request) time.Time {
+	if now := vtime.Now(); r.due.Before(now) {
+		return now
+	}
+	return r.due
+}
+
+func (in *inst) anyFlying() bool {
+	for _, r := range in.net {
+		if r.flying {
+			return true
+		}
+	}
+	return false
+}
+
+// enabledAt: an event at time t may happen now iff no pending Interest expires strictly before t.
+func (in *inst) enabledAt(t time.Time) bool {
+	for _, r := range in.net {
+		if r.pending && in.expiry(r).Before(t) {
+			return false
+		}
+	}
+	return true
+}
+
+func (in *inst) advanceTo(t time.Time) {
+	if d := t.Sub(vtime.Now()); d > 0 {
+		vtime.Advance(d)
+	}
+}
+
+// ---------------------------------------------------------------------------------------------
 // operations
 
 func reqLabel(kind string, i int, r *request) string {
@@ -1039,15 +1273,31 @@ func (in *inst) defaultOp() string {
 			return "Step(" + armName[a] + ")"
 		}
 	}
+	// network events in virtual-time order: the earliest arrival (oldest packet first among equal
+	// times) unless a pending Interest expires before it, then the earliest expiry
+	best := -1
+	var bt time.Time
 	for i, r := range in.net {
 		if r.flying {
-			return reqLabel("Ans", i, r)
+			if t := in.arrival(r); best < 0 || t.Before(bt) {
+				best, bt = i, t
+			}
 		}
 	}
+	if best >= 0 && in.enabledAt(bt) {
+		return reqLabel("Ans", best, in.net[best])
+	}
+	best = -1
 	for i, r := range in.net {
-		if r.pending {
-			return reqLabel("TO", i, r)
+		if r.pending && (best < 0 || r.due.Before(bt)) {
+			best, bt = i, r.due
 		}
+	}
+	if best >= 0 {
+		return reqLabel("TO", best, in.net[best])
+	}
+	if in.anyFlying() {
+		panic("harness: packets in flight but no network event enabled")
 	}
 	if in.sc != nil && in.seqNext < len(in.sc.Seq) {
 		for _, rec := range in.recs {
@@ -1089,7 +1339,7 @@ func (s *sys) Ops(i any) []explore.Op {
 	if in.sc.Perm {
 		var ops []explore.Op
 		for k, r := range in.net {
-			if r.flying {
+			if r.flying && in.enabledAt(in.arrival(r)) {
 				ops = append(ops, explore.Op{Name: reqLabel("Ans", k, r)})
 			}
 		}
@@ -1113,8 +1363,17 @@ func (s *sys) Ops(i any) []explore.Op {
 			add("Step(" + armName[a] + ")")
 		}
 	}
+	// the consumer's face goes down / comes back: only while an Interest is about to be expressed
+	// (the state of the face matters to nothing else, so the toggle is not offered elsewhere)
+	if q[object.VerifArmOut] > 0 && in.s.faceOps {
+		if in.ce.down {
+			add("FaceUp")
+		} else {
+			add("FaceDown")
+		}
+	}
 	for k, r := range in.net {
-		if r.flying {
+		if r.flying && in.enabledAt(in.arrival(r)) {
 			add(reqLabel("Ans", k, r))
 		}
 	}
@@ -1124,12 +1383,12 @@ func (s *sys) Ops(i any) []explore.Op {
 		}
 	}
 	for k, r := range in.net {
-		if r.pending {
+		if r.pending && in.enabledAt(in.expiry(r)) {
 			add(reqLabel("TO", k, r))
 		}
 	}
 	for k, r := range in.net {
-		if r.pending && r.flying {
+		if r.pending && r.flying && in.enabledAt(in.arrival(r)) {
 			add(reqLabel("Nack", k, r))
 		}
 	}
@@ -1167,14 +1426,20 @@ func (in *inst) one(name string) {
 				in.step(a)
 			}
 		}
+	case name == "FaceDown", name == "FaceUp":
+		in.ce.down = name == "FaceDown"
+		in.faceLog = append(in.faceLog, name)
 	case strings.HasPrefix(name, "Ans#"):
+		in.advanceTo(in.arrival(in.net[idx(name)]))
 		in.answer(in.net[idx(name)])
 	case strings.HasPrefix(name, "Drop#"):
 		in.net[idx(name)].flying = false
 		in.gcNet()
 	case strings.HasPrefix(name, "TO#"):
+		in.advanceTo(in.expiry(in.net[idx(name)]))
 		in.timeout(in.net[idx(name)])
 	case strings.HasPrefix(name, "Nack#"):
+		in.advanceTo(in.arrival(in.net[idx(name)]))
 		in.fatalResult(in.net[idx(name)], ndn.InterestResultNack)
 	case strings.HasPrefix(name, "Err#"):
 		in.fatalResult(in.net[idx(name)], ndn.InterestResultError)
@@ -1206,6 +1471,9 @@ func (in *inst) final() {
 		if rec.completed == 0 {
 			in.bad("C15.once", "consumer callback never reports completion although nothing is pending", fmt.Sprintf("%s: %d callback calls, %d bytes delivered, no pending Interest, no queued client work; client: %s", rec.tgt, rec.calls, len(rec.got), in.cons.VerifDump()))
 		}
+	}
+	if len(in.viol) == 0 {
+		in.churn()
 	}
 }
 
@@ -1239,6 +1507,7 @@ func (in *inst) do(op explore.Op) {
 	defer wd.Stop()
 	in.trace = nil
 	in.hist = append(in.hist, op.Name)
+	maybeSelftestCrash(op.Name)
 	switch {
 	case strings.HasPrefix(op.Name, "S:"):
 		sc := in.s.byName[op.Name[2:]]
@@ -1279,14 +1548,27 @@ func (s *sys) Apply(i any, op explore.Op) []report.Violation {
 			panic(digits.ReplaceAllString(fmt.Sprint(r), "N"))
 		}
 	}()
+	faultsPanic()
 	in.do(op)
 	return in.takeViol()
 }
 
 func (s *sys) Do(i any, op explore.Op) {
 	in := i.(*inst)
+	faultsPanic()
 	in.do(op)
 	in.takeViol()
+}
+
+// faultsPanic: a memory fault at a non-nil address (a slice into a memory map that was unmapped or
+// moved) in the goroutine that runs the code under test becomes a panic, which the explorer reports
+// as a C15.panic violation with the faulting frames, instead of a fatal error that kills the worker
+// (that case is handled too, see crash.go, but costs a process per operation).
+// C15_NOPANICONFAULT=1 (development aid) leaves the runtime's default.
+func faultsPanic() {
+	if os.Getenv("C15_NOPANICONFAULT") == "" {
+		debug.SetPanicOnFault(true)
+	}
 }
 
 func (s *sys) Canon(i any) string {
@@ -1299,7 +1581,15 @@ func (s *sys) Canon(i any) string {
 	}
 	var b strings.Builder
 	b.WriteString(in.sc.String())
-	fmt.Fprintf(&b, "|dyn%v|t+%d|seq%d|", in.dynLog, vtime.Now().Sub(vtime.Epoch), in.seqNext)
+	// the absolute clock matters to the future only through publications still to come whose
+	// version is the timestamp; everything else is kept relative to now
+	abs := time.Duration(-1)
+	for _, x := range in.sc.Seq[min(in.seqNext, len(in.sc.Seq)):] {
+		if x.P != nil && x.P.Ver == noVer {
+			abs = vtime.Now().Sub(vtime.Epoch)
+		}
+	}
+	fmt.Fprintf(&b, "|dyn%v|t+%d|seq%d|down%v|", in.dynLog, abs, in.seqNext, in.ce.down)
 	for _, r := range in.recs {
 		fmt.Fprintf(&b, "rec{%d %d %v %d %v %d}", r.calls, r.completed, r.err != nil, len(r.got), r.expKnown, r.expVer)
 	}
@@ -1335,8 +1625,24 @@ func (s *sys) Canon(i any) string {
 	for _, k := range keys {
 		fmt.Fprintf(&b, "fatal{%s=%d}", k, in.fatal[k])
 	}
+	keys = keys[:0]
+	for k := range in.spurious {
+		keys = append(keys, k)
+	}
+	sort.Strings(keys)
+	for _, k := range keys {
+		fmt.Fprintf(&b, "spur{%s=%d}", k, in.spurious[k])
+	}
+	now := vtime.Now()
 	for _, r := range in.net {
-		fmt.Fprintf(&b, "net{%s %v %v %v}", r.nameS, r.cbp, r.pending, r.flying)
+		arr, exp := time.Duration(-1), time.Duration(-1)
+		if r.flying {
+			arr = in.arrival(r).Sub(now)
+		}
+		if r.pending {
+			exp = in.expiry(r).Sub(now)
+		}
+		fmt.Fprintf(&b, "net{%s %v %v %v %v a%d e%d}", r.nameS, r.cbp, r.pending, r.flying, r.unsent, arr, exp)
 	}
 	b.WriteString("|")
 	b.WriteString(in.cons.VerifDump())
